@@ -43,8 +43,13 @@ def check(rep, tier, seed):
         for n in range(len(b)):
             cases.append("npyr %s" % (b[:n].hex() or "-")); labels.append((lab, "prefix %d/%d" % (n, len(b))))
         for k in range(1, 17):
-            for ext in (bytes(k), bytes(rng.randrange(256) for _ in range(k))):
-                cases.append("npyr %s" % (b + ext).hex()); labels.append((lab, "extension +%d" % k))
+            # zero bytes, random bytes, and fills a lenient reader might be tempted to forgive: line breaks, spaces, CR LF,
+            # tabs, form feeds; through the npy reader itself and through the format-detecting reader of view/fold/stat
+            ws = [b"\n" * k, b" " * k, (b"\r\n" * k)[:k], b"\t" * k, b"\x0c" * k, bytes(rng.choice(b" \t\n\r\x0c") for _ in range(k))]
+            for ext in [bytes(k), bytes(rng.randrange(256) for _ in range(k)), b"\xff" * k] + (ws if k <= 4 or k == 16 else ws[:2]):
+                kind = "whitespace-extension" if ext in ws else "extension"
+                cases.append("npyr %s" % (b + ext).hex()); labels.append((lab, "%s +%d" % (kind, k)))
+                cases.append("read %s" % (b + ext).hex()); labels.append((lab, "%s +%d (detecting reader)" % (kind, k)))
     mo, outs = compare_cases(rep, "npy-damage", cases, nontrivial=lambda c, m: True,
                              classify=lambda c, m, i: "damage:model-vs-impl", spec=True, both_builds=(tier == "thorough"))
     uniq = list(dict.fromkeys(cases)); pos = {c: k for k, c in enumerate(uniq)}
@@ -111,6 +116,8 @@ def check(rep, tier, seed):
     # binary slice
     jobs, jl = [], []
     sample = rng.sample(list(zip(cases, labels)), 60 if tier == "quick" else 600)
+    wsx = [(c, l) for c, l in zip(cases, labels) if l[1].startswith("whitespace-extension") and c.startswith("npyr")]
+    sample += rng.sample(wsx, min(len(wsx), 40 if tier == "quick" else 400))
     for c, (lab, what) in sample:
         data = bytes.fromhex(c.split()[1]) if c.split()[1] != "-" else b""
         for argv in (["view"], ["fold"], ["stat", "-s", "sum"]):
